@@ -3,3 +3,5 @@ pub mod probe;
 pub mod repo;
 pub mod index;
 pub mod backend;
+pub mod config;
+pub mod chunker;
